@@ -117,6 +117,18 @@ Proof.
   apply Z.leb_gt. exact H1.
 Qed.
 
+(* the shortcut in [too_long] is sound: it is exactly the test for more than 4300 digits *)
+Lemma too_long_exact v : too_long v = (10 ^ max_str_digits <=? Z.abs v).
+Proof.
+  unfold too_long. destruct (Z.log2 (Z.abs v) <? 14284) eqn:E; [|reflexivity].
+  symmetry. apply Z.leb_gt.
+  assert (H2 : 2 ^ 14284 <= 10 ^ max_str_digits) by (apply Z.leb_le; vm_compute; reflexivity).
+  apply Z.lt_le_trans with (2 ^ 14284); [|exact H2].
+  destruct (Z.eq_dec (Z.abs v) 0) as [->|Hnz].
+  - apply Z.pow_pos_nonneg; [reflexivity|discriminate].
+  - apply Z.log2_lt_pow2; [pose proof (Z.abs_nonneg v); lia|apply Z.ltb_lt; exact E].
+Qed.
+
 Lemma str_int_nonneg v : 0 <= v < 10 ^ max_str_digits -> str_int v = Ok (str_nonneg v).
 Proof.
   intros H. unfold str_int. rewrite (too_long_false v H).
@@ -318,6 +330,60 @@ Proof.
       split; [reflexivity|]. split.
       * rewrite Z2N.id by lia. fold p. rewrite <- !Z.mul_assoc, sgn_abs. lia.
       * apply quantize_fixed; [exact He|]. fold B. lia.
+Qed.
+
+(* the other direction: outside [fitsb] the helper raises InvalidOperation *)
+Lemma round_half_even_big c p B : 0 <= c -> 0 < p -> Z.even (B - 1) = false ->
+  2 * (B * p) <= 2 * c + p -> B <= round_half_even c p.
+Proof.
+  intros Hc Hp Hodd Hbig. unfold round_half_even.
+  pose proof (Z.div_mod c p ltac:(lia)) as Hdm.
+  pose proof (Z.mod_pos_bound c p Hp) as Hr.
+  set (q0 := c / p) in *. set (r := c mod p) in *.
+  assert (Hqp : q0 * p = c - r) by lia.
+  assert (Hq0 : B - 1 <= q0).
+  { destruct (Z_le_gt_dec (B - 1) q0) as [H|H]; [exact H|exfalso].
+    assert (q0 * p <= (B - 2) * p) by (apply Z.mul_le_mono_nonneg_r; lia).
+    replace ((B - 2) * p) with (B * p - 2 * p) in * by ring. lia. }
+  destruct (Z.eq_dec q0 (B - 1)) as [E|E].
+  - replace ((B - 1) * p) with (B * p - p) in * by ring.
+    rewrite E in *. replace ((B - 1) * p) with (B * p - p) in Hqp by ring.
+    destruct (2 * r <? p) eqn:E1; [lia|].
+    destruct (p <? 2 * r) eqn:E2; [lia|].
+    rewrite Hodd. lia.
+  - destruct (2 * r <? p); [lia|]. destruct (p <? 2 * r); [lia|]. destruct (Z.even q0); lia.
+Qed.
+
+Lemma decimal_places_err d x : 0 <= d <= - etiny -> fitsb d x = false ->
+  decimal_places d x = Err DecimalInvalid.
+Proof.
+  intros Hd Hfit. unfold decimal_places. rewrite (quantum_exp_ok d Hd). cbn [bind].
+  assert (He : etiny <= - d <= emax) by (unfold etiny, emax in *; lia).
+  set (e := - d) in *.
+  unfold fitsb, common in Hfit. fold e in Hfit.
+  unfold quantize.
+  destruct ((e <? etiny) || (emax <? e)) eqn:G; [lia|].
+  set (c := Z.of_N (coef x)) in *.
+  assert (Hc : 0 <= c) by (unfold c; lia).
+  set (B := 10 ^ prec) in *. change (10 ^ 28) with B in Hfit.
+  assert (HB : 1 <= B) by (unfold B, prec; lia).
+  assert (Hu : 0 < 10 ^ (e - Z.min (dexp x) e)) by (apply pow10_gt0; lia).
+  destruct (c =? 0) eqn:E0.
+  - exfalso. assert (c = 0) by lia.
+    set (u := 10 ^ (e - Z.min (dexp x) e)) in *. set (w := 10 ^ (dexp x - Z.min (dexp x) e)) in *.
+    assert (u <= B * u) by nia. nia.
+  - destruct (0 <=? dexp x - e) eqn:Ek.
+    + assert (Hmin : Z.min (dexp x) e = e) by lia. rewrite Hmin in *.
+      rewrite Z.sub_diag in *. change (10 ^ 0) with 1 in *.
+      destruct (prec <? dexp x - e); [reflexivity|].
+      destruct (B <=? c * 10 ^ (dexp x - e)) eqn:Eb; [reflexivity|lia].
+    + assert (Hmin : Z.min (dexp x) e = dexp x) by lia. rewrite Hmin in *.
+      rewrite Z.sub_diag in *. change (10 ^ 0) with 1 in *.
+      replace (- (dexp x - e)) with (e - dexp x) by ring.
+      set (p := 10 ^ (e - dexp x)) in *.
+      assert (Hbig : B <= round_half_even c p).
+      { apply round_half_even_big; [exact Hc|exact Hu|reflexivity|lia]. }
+      destruct (B <=? round_half_even c p) eqn:Eb; [reflexivity|lia].
 Qed.
 
 (* ================= CONVERSION ================= *)
